@@ -46,7 +46,8 @@ def site(op, route, kind):
         o = mk_obj(kind, uid=1, owner=owner, policy="p", names=["name1"], masks=ALL_MASKS,
                    state=enums.State.ACTIVE)
         other = OP.QUERY
-        bundle = build_bundle(True, sel, 0, 0, False, o.object_type, policy_op, other)
+        # selectors 3-5 give every other operation the opposite permission (wrong-operation look-ups show)
+        bundle = build_bundle(True, sel, 0, 0, False, o.object_type, policy_op, "COMPLEMENT" if sel >= 3 else other)
         pol = stubs.default_policies()
         pol["p"] = bundle
         crypto = P.RecordingCrypto()
